@@ -45,7 +45,7 @@ func genOp(t *rapid.T, client, seq int) kit.Cmd {
 	uniq := fmt.Sprintf("c%d-%d", client, seq) // unique values: a reply delivered to the wrong client shows
 	switch typ {
 	case "s":
-		switch gen.Weighted(t, "sop", []int{5, 4, 3, 6, 3, 4, 2, 2, 2}) {
+		switch gen.Weighted(t, "sop", []int{5, 4, 3, 6, 3, 4, 2, 2, 2, 3, 3, 2}) {
 		case 0:
 			return kit.MkCmd("GET", k)
 		case 1:
@@ -62,8 +62,16 @@ func genOp(t *rapid.T, client, seq int) kit.Cmd {
 			return kit.MkCmd("STRLEN", k)
 		case 7:
 			return kit.MkCmd("DEL", k)
-		default:
+		case 8:
 			return kit.MkCmd("EXISTS", k)
+		case 9:
+			// big values (8 KiB of one tag): a reply that mixes two tags is a value the key never held
+			return kit.MkCmd("SET", k, strings.Repeat(uniq+"|", 8192/(len(uniq)+1)))
+		case 10:
+			// overwrite inside the current value (non-growing when the value is big)
+			return kit.MkCmd("SETRANGE", k, "0", strings.Repeat(uniq+"|", 4096/(len(uniq)+1)))
+		default:
+			return kit.MkCmd("GETRANGE", k, "0", "-1")
 		}
 	case "l":
 		switch gen.Weighted(t, "lop", []int{6, 6, 5, 5, 2, 2, 1}) {
@@ -325,7 +333,7 @@ func TestInproc(t *testing.T) {
 	if os.Getenv("VERIF_RACE") != "" {
 		q, th = 60, 500 // the race detector slows execution ~10x
 	}
-	kit.Check(t, kit.Spec[Case]{Sub: "inproc", Quick: q, Thorough: th, Gen: genCase, Exec: execInproc})
+	kit.Check(t, kit.Spec[Case]{Sub: "inproc", Quick: q, Thorough: th, Gen: genCase, Exec: execInproc, TrackCase: true})
 }
 
 // ---------------------------------------------------------------- the same programs over TCP
